@@ -88,6 +88,21 @@ func TestC01EndTagCR(t *testing.T) {
 	expect(t, "C01-endtag-cr", out, err, "</script\r>if(a<b&&c>d){}</script>")
 }
 
+func TestC06DerivedFromRewrittenTree(t *testing.T) {
+	tmpl, err := template.New("t").ParseFromTrustedTemplate(tuc.TrustedTemplateFromStringKnownToSatisfyTypeContract(
+		`{{define "h"}}{{.}}{{end}}{{define "a"}}<p>{{template "h" .}}{{end}}{{define "b"}}<p title="{{template "h" .}}">{{end}}`))
+	if err != nil {
+		t.Skip(err)
+	}
+	var b bytes.Buffer
+	if err := tmpl.ExecuteTemplate(&b, "a", "x&y"); err != nil {
+		t.Skip(err)
+	}
+	b.Reset()
+	err = tmpl.ExecuteTemplate(&b, "b", "x&y")
+	expect(t, "C06-derived-from-rewritten-tree", b.String(), err, `title="x&amp;amp;y"`)
+}
+
 func TestC04LinkRelGluedToken(t *testing.T) {
 	out, err := render(t, `<link rel="{{if .C}}x{{end}}icon stylesheet" href="{{.U}}">`, map[string]interface{}{"C": true, "U": "//evil.example/x.css"})
 	expect(t, "C04-linkrel-glued-token", out, err, `rel="xicon stylesheet" href="//evil.example/x.css"`)
